@@ -165,7 +165,7 @@ def lookupDocReasons (foreign : List Val) (lf ff : String) (d : Val) : List Stri
     let q := (dget lf fs).getD .null
     (if joinScalar q then [] else ["joinscope"]) ++ (if normalV q then [] else ["datenorm"]) ++
     foreign.flatMap (fun f => match f with
-      | .doc gs => joinReasons q (dget ff gs)
+      | .doc gs => (if normalV f then [] else ["datenorm"]) ++ joinReasons q (dget ff gs)
       | _ => ["nondoc"])
   | _ => ["nondoc"]
 
@@ -204,7 +204,8 @@ theorem lookupDoc_eq_spec (foreign : List Val) (lf ff as : String) (d : Val)
       have := (flatMap_nil_iff' _ _).1 h3 f hf
       cases f with
       | doc gs =>
-        rw [filterApplies_plain ff q gs hff hqd, plainMatch_eq_joins q _ hjs this]
+        simp only [List.append_eq_nil_iff] at this
+        rw [filterApplies_plain ff q gs hff hqd, plainMatch_eq_joins q _ hjs this.2]
       | _ => simp at this
     have hfind : findDocs (.doc [(ff, q)]) foreign = .ok (foreign.filter (fun f =>
         match f with | .doc gs => joins q (dget ff gs) | _ => false)) := by
@@ -212,7 +213,29 @@ theorem lookupDoc_eq_spec (foreign : List Val) (lf ff as : String) (d : Val)
       cases foreign with
       | nil => simp only [filterApplies_plain ff q [] hff hqd]; rfl
       | cons a r => exact filterR_ok_of _ _ _ hfor
-    simp only [lookupDoc, hquery, hfind, specLookupDoc]
+    -- the fetched documents are in stored form: normalising them changes nothing
+    have hnorm : ∀ f ∈ foreign, patch f = f := by
+      intro f hf
+      have := (flatMap_nil_iff' _ _).1 h3 f hf
+      cases f with
+      | doc gs =>
+        simp only [List.append_eq_nil_iff] at this
+        have hn : normalV (.doc gs) = true := by
+          cases h : normalV (.doc gs) with
+          | true => rfl
+          | false => simp [h] at this
+        exact normalV_patch _ hn
+      | _ => simp at this
+    have hpl : ∀ (l : List Val), (∀ f ∈ l, patch f = f) → patchList l = l := by
+      intro l hl
+      rw [MongoModel.Proofs.C18.patchList_eq_map]
+      conv => rhs; rw [← List.map_id l]
+      exact List.map_congr_left (fun f hf => by simpa using hl f hf)
+    have hms : patchList (foreign.filter (fun f =>
+        match f with | .doc gs => joins q (dget ff gs) | _ => false)) = foreign.filter (fun f =>
+        match f with | .doc gs => joins q (dget ff gs) | _ => false) :=
+      hpl _ (fun f hf => hnorm f (List.mem_filter.mp hf).1)
+    simp only [lookupDoc, hquery, hfind, specLookupDoc, hms]
     rfl
   | _ => simp [lookupDocReasons] at hD
 
